@@ -55,6 +55,19 @@ Theorem C12_abort_prevents : forall pk ls1 ls2 t0 i,
         exists tm', nth_error (timers s3) i = Some tm' /\ k_pc tm' = PAborted).
 Proof. exact abort_prevents. Qed.
 
+(* (2b) abort before the first poll: a timer whose handle is aborted before its task was ever
+   polled (e.g. send_after(0) followed at once by abort(), no await in between) never fires,
+   whatever the period (zero included) and whatever happens afterwards: no effect of that timer
+   on the target ever exists, nothing of it is ever handled, the task ends as cancelled *)
+Theorem C12_abort_before_first_poll : forall pk ls1 ls2 t0 i tm,
+  let s1 := run ls1 (init t0 pk) in
+  nth_error (timers s1) i = Some tm -> k_pc tm = PInit ->
+  let s3 := run ls2 (step s1 (Abort i)) in
+  effs_of i (effs s3) = []
+  /\ (forall k t, ~ In (i, k, t) (g_log (tgt s3)))
+  /\ exists tm', nth_error (timers s3) i = Some tm' /\ k_pc tm' = PAborted /\ k_sent tm' = 0.
+Proof. exact abort_before_first_poll. Qed.
+
 (* (3) dead target: once the target refuses messages (Draining, Stopping, Stopped) no timer
    message is ever accepted again, and a send_after that had not delivered reports Err
    through its handle whenever it returns *)
@@ -235,6 +248,19 @@ Example ex_stopping_window :
   /\ check_C12 false [OMk KAfter (5 * ms); OAdv ms; OStop RNone; OAdv (4 * ms); OPOpen]
        (mkObs [] [HOk] (Some (RNone, 5000000)) [] (Some 1000000)) = false.
 Proof. split; vm_compute; reflexivity. Qed.
+(* zero-period timers of every one-shot kind aborted at once (no await in between) never fire;
+   with a settle in between (the control) they have fired before the abort; the oracle rejects a
+   delivery / an Ok / an exit by a timer that was aborted before its first poll *)
+Example ex_abort_unpolled :
+  observe false false [OMk KAfter 0; OAbort 0; OMk KExit 0; OAbort 1; OMk KKill 0; OAbort 2; OSettle; OAdv ms]
+  = mkObs [] [HCancelled; HCancelled; HCancelled] None [] None
+  /\ observe false false [OMk KAfter 0; OSettle; OAbort 0] = mkObs [(0%nat, 1, 0)] [HOk] None [] None
+  /\ check_C12 false [OMk KAfter 0; OAbort 0; OSettle] (mkObs [(0%nat, 1, 0)] [HOk] None [] None) = false
+  /\ check_C12 false [OMk KAfter 0; OAbort 0; OSettle] (mkObs [(0%nat, 1, 0)] [HCancelled] None [] None) = false
+  /\ check_C12 false [OMk KExit 0; OAbort 0; OSettle] (mkObs [] [HCancelled] (Some (RExitAfter 0, 0)) [] (Some 0)) = false
+  /\ check_C12 false [OMk KKill 0; OAbort 0; OSettle] (mkObs [] [HCancelled] (Some (RKilled, 0)) [] (Some 0)) = false
+  /\ check_C12 false [OMk KAfter 0; OSettle; OAbort 0] (mkObs [(0%nat, 1, 0)] [HOk] None [] None) = true.
+Proof. repeat split; vm_compute; reflexivity. Qed.
 Example ex_oracle :
   check_C12 false [OMk KInterval ms; OAdv ms; OKill; OProbe; OAdv ms; OProbe]
             (observe false false [OMk KInterval ms; OAdv ms; OKill; OProbe; OAdv ms; OProbe]) = true
@@ -247,6 +273,7 @@ Proof. repeat split; vm_compute; reflexivity. Qed.
 Print Assumptions C12_after_once_not_early.
 Print Assumptions C12_after_fires.
 Print Assumptions C12_abort_prevents.
+Print Assumptions C12_abort_before_first_poll.
 Print Assumptions C12_dead_target_err.
 Print Assumptions C12_interval_kth.
 Print Assumptions C12_interval_kth_exact.
